@@ -38,11 +38,12 @@ def stmt_failure(kind, radius, search, ro, shape):
     if p.get_crop_size() != math.ceil(search):
         return 'crop size %s != ceil(search=%s)' % (p.get_crop_size(), search)
     cy, cx = shape[0] // 2, shape[1] // 2
+    empty_ring = False
     if kind == 'BackgroundSubtraction':
         # premise of the theorem C16_background_subtraction_balanced (sum of the ring != 0): the balancing ring must
-        # intersect the requested array at all; otherwise sum_1/sum_2 is 0/0 (DESIGN.md section 6, not a finding)
-        if float(np.sum(masks.ring(cx, cy, shape[1], shape[0], ro, radius, antialiased=True))) == 0.0:
-            return None
+        # intersect the requested array at all; otherwise there is nothing to balance against and the mask is the disk
+        # itself (C16_background_subtraction_empty_ring; it used to be 0/0 = NaN, finding F17): zero sum not demanded
+        empty_ring = float(np.sum(masks.ring(cx, cy, shape[1], shape[0], ro, radius, antialiased=True))) == 0.0
     m = np.asarray(p.get_mask(shape), dtype=np.float64)
     if m.shape != tuple(shape):
         return 'mask shape %s != requested %s' % (m.shape, shape)
@@ -63,6 +64,8 @@ def stmt_failure(kind, radius, search, ro, shape):
         return 'mask value %.6g at pixel %s, distance %.3f > outer radius %.3f + 1' % (m[tuple(i)], tuple(i), r[tuple(i)], R)
     if m.max() > 1 + 1e-12:
         return 'mask exceeds 1: %.6g' % m.max()
+    if empty_ring and not np.array_equal(m, np.asarray(masks.circular(cx, cy, shape[1], shape[0], radius, antialiased=True), dtype=np.float64)):
+        return 'BackgroundSubtraction mask for shape %s (ring entirely outside) is not the disk' % (shape,)
     if kind == 'BackgroundSubtraction' and min(cy, cx, shape[0] - 1 - cy, shape[1] - 1 - cx) >= R + 1:
         if abs(m.sum()) > 1e-9 * max(1.0, np.abs(m).sum()):
             return 'background-subtracting mask sums to %.6g, not 0' % m.sum()
@@ -211,8 +214,7 @@ def run(ctx):
             m1 = np.asarray(masks.circular(cx, cy, shape[1], shape[0], radius, antialiased=True), dtype=np.float64)
             m2 = np.asarray(masks.ring(cx, cy, shape[1], shape[0], ro, radius, antialiased=True), dtype=np.float64)
             s1, s2 = F(m1.sum()), F(m2.sum())
-            if m2.sum() == 0:
-                continue
+            ctx.hist('BackgroundSubtraction ring', 'entirely outside the requested shape' if m2.sum() == 0 else 'intersects the requested shape')
         for (y, x) in sorted(pix):
             r = cq(F(rmap[y, x]))
             near = 'true' if (y, x) == (cy, cx) else 'false'
